@@ -6,10 +6,10 @@ package main
 import (
 	"fmt"
 	"os"
-	"runtime/debug"
 	"strconv"
 	"strings"
 	"sync"
+	"sync/atomic"
 
 	"verifmc/core"
 	"verifmc/node"
@@ -23,7 +23,9 @@ import (
 
 // History is a workload: steps I<h> (insert block h without confirms), C<h> (the confirm of block h
 // arrives: h and every unstable ancestor are promoted), K<h> (block h arrives with its confirm:
-// inserted and promoted in one call), X (clean shutdown and start).
+// inserted and promoted in one call), X (clean shutdown and start). C<h> for a block that is stable
+// already (it was promoted together with a confirmed descendant and has only its miner's signature)
+// rewrites the stored block record with the confirm.
 type History struct {
 	Name  string
 	Steps []string
@@ -60,22 +62,36 @@ type RunLog struct {
 	Ops     []vfs.Op
 	// Stats of the gate
 	FgPoints, ForcedMoves, FreeMoves, Timeouts, LockWaitsBG, LockWaitsFG int
-	Broken                                                                   string
-	StepFg                                                                   []int // foreground gate index at which each step began
+	Broken                                                               string
+	StepFg                                                               []int // foreground gate index at which each step began
 }
 
 // spawnHook turns every goroutine the store starts into one whose panic is recorded instead of
 // killing the process. A panic while a session is active is attributed to it.
 var strayPanics []string
+
+// epoch numbers the instances the harness creates (one per workload run / evaluation): a store
+// goroutine belongs to the epoch in which it was started.
+var epoch, latePanics int64
+
+func newEpoch() { atomic.AddInt64(&epoch, 1); takeStrayPanics() }
+
 var panicMu sync.Mutex
 
 func installHooks() {
 	vtask.SetPolicy(vtask.Drop, "store/", vtask.Real)
 	vtask.Spawn = func(site string, f func()) {
+		born := atomic.LoadInt64(&epoch)
 		go func() {
 			defer func() {
 				if p := recover(); p != nil {
 					msg := fmt.Sprint(p)
+					if atomic.LoadInt64(&epoch) != born {
+						// a goroutine of an instance that was abandoned earlier (its image has been
+						// reported for the problem that made the harness abandon it): not this case's
+						atomic.AddInt64(&latePanics, 1)
+						return
+					}
 					if s := vfs.Active(); s != nil {
 						s.NotePanic(msg)
 					} else {
@@ -83,7 +99,6 @@ func installHooks() {
 						strayPanics = append(strayPanics, msg)
 						panicMu.Unlock()
 					}
-					_ = debug.Stack
 				}
 			}()
 			f()
@@ -130,12 +145,23 @@ func (w *world) step(s *vfs.Session, dir string, n **node.Node, st string) {
 			panic(fmt.Sprintf("harness: workload step %s failed: %v", st, err))
 		}
 	case 'C':
+		late := int((*n).BC.StableBlock().Height()) >= h
 		(*n).BC.InsertConfirms(uint32(h), w.blocks[h].Hash(), []types.SignData{w.confirms[h]})
+		if late {
+			// the confirm of a block that is stable already: the stored record gets the confirm
+			if b, err := (*n).DB.GetBlockByHash(w.blocks[h].Hash()); err != nil || len(b.Confirms) != 1 {
+				panic(fmt.Sprintf("harness: after the late confirm %s block %d does not carry it (%v)", st, h, err))
+			}
+			return
+		}
 	case 'X':
 		(*n).Close()
+		// the old process is gone: its goroutines never run again, its pending index is forgotten
+		s.NewInstance()
 		nn, err := openNode(dir)
 		if err != nil {
-			panic(fmt.Sprintf("harness: clean restart inside the workload failed: %v", err))
+			wal, _ := os.ReadFile(dir + "/tmp.data")
+			panic(fmt.Sprintf("harness: clean restart inside the workload failed: %v; tmp.data has %d bytes [%s]", err, len(wal), describeWal(wal)))
 		}
 		*n = nn
 	default:
@@ -151,6 +177,7 @@ func (w *world) step(s *vfs.Session, dir string, n **node.Node, st string) {
 
 // runHistory executes hist under sched on a fresh copy of the base image.
 func (w *world) runHistory(hist History, sched Sched, order int) *RunLog {
+	newEpoch()
 	dir := core.ScratchDir("c08run")
 	defer os.RemoveAll(dir)
 	w.setup.Base.materialise(dir)
